@@ -105,8 +105,10 @@ def check_call(name, fn, args, D, out, case, ref=None, atol=0.0, sigprefix='C12|
 def check_entry(e, D, seed, out):
     if D > e.maxD:
         return
-    args = CAT.make_args(e, D, P, seed)
-    check_call(e.name, e.fn, args, D, out, {'kind': 'entry', 'name': e.name, 'D': D, 'seed': seed})
+    for variant in CAT.variants_for(e, D):
+        args = CAT.make_args(e, D, P, seed, variant)
+        nm = e.name if variant == 'dense' else '%s{%s}' % (e.name, variant)
+        check_call(nm, e.fn, args, D, out, {'kind': 'entry', 'name': e.name, 'D': D, 'seed': seed, 'variant': variant})
 
 
 ZERO_FUNCS = [('absolute', algopy.absolute), ('abs()', abs), ('sign', algopy.sign), ('square', algopy.square), ('sin', algopy.sin), ('exp', algopy.exp),
